@@ -371,11 +371,15 @@ def line_rule(ctx: Ctx) -> None:
 
 def _is_loop_var(f: FuncInfo, node: ast.AST, var: str, lists) -> bool:
     for n in walk_no_nested(f.node):
-        if isinstance(n, ast.For) and any(node is x for x in ast.walk(n)) and isinstance(n.target, ast.Tuple) and n.target.elts \
-                and isinstance(n.target.elts[0], ast.Name) and n.target.elts[0].id == var:
-            it = " ".join(ast.unparse(n.iter).split())
-            if it in lists:
-                return True
+        if not (isinstance(n, ast.For) and any(node is x for x in ast.walk(n)) and isinstance(n.target, ast.Tuple) and n.target.elts):
+            continue
+        tgt, it = n.target, n.iter
+        # for i, (line_number, line, parsed) in enumerate(<list>)
+        if isinstance(it, ast.Call) and isinstance(it.func, ast.Name) and it.func.id == "enumerate" and len(it.args) == 1 \
+                and len(tgt.elts) == 2 and isinstance(tgt.elts[1], ast.Tuple):
+            tgt, it = tgt.elts[1], it.args[0]
+        if tgt.elts and isinstance(tgt.elts[0], ast.Name) and tgt.elts[0].id == var and " ".join(ast.unparse(it).split()) in lists:
+            return True
     return False
 
 
